@@ -1,15 +1,18 @@
 package sod
 
 import (
+	"bytes"
 	"encoding/json"
 	"errors"
 	"fmt"
 	"regexp"
+	"strconv"
 	"time"
 )
 
 var (
-	ErrUnknownKeyType = errors.New("unknown key type")
+	ErrUnknownKeyType  = errors.New("unknown key type")
+	ErrBadIndexedField = errors.New("bad indexed field")
 )
 
 type indexedField struct {
@@ -26,13 +29,30 @@ func (f *indexedField) MarshalJSON() ([]byte, error) {
 
 func (f *indexedField) UnmarshalJSON(data []byte) error {
 	var tuple []interface{}
-	if err := json.Unmarshal(data, &tuple); err != nil {
+
+	// numbers are kept as json.Number: decoding them to float64 would
+	// alter any integer (or timestamp) which does not fit in 53 bits
+	dec := json.NewDecoder(bytes.NewReader(data))
+	dec.UseNumber()
+	if err := dec.Decode(&tuple); err != nil {
 		return err
 	}
+
+	if len(tuple) != 2 {
+		return fmt.Errorf("%w: expecting [value, object-id] got %s", ErrBadIndexedField, string(data))
+	}
+
 	f.Value = tuple[0]
-	// Json unmarshals integer to interface{} as float64
-	f.ObjectId = uint64(tuple[1].(float64))
-	return nil
+
+	if id, ok := tuple[1].(json.Number); ok {
+		var err error
+		if f.ObjectId, err = strconv.ParseUint(id.String(), 10, 64); err != nil {
+			return fmt.Errorf("%w: bad object-id %s", ErrBadIndexedField, id)
+		}
+		return nil
+	}
+
+	return fmt.Errorf("%w: bad object-id in %s", ErrBadIndexedField, string(data))
 }
 
 func (f *indexedField) String() string {
@@ -75,20 +95,34 @@ func newIndexedField(value interface{}, objid uint64) (*indexedField, error) {
 	return &indexedField{value, objid}, err
 }
 
-func (f *indexedField) valueTypeFromString(t string) {
-	// we cast everything to float64 because json unmarshal interface{}
-	// to float64 and that is a current limitation of the indexing
+func (f *indexedField) valueTypeFromString(t string) (err error) {
+	// numeric values come as json.Number out of UnmarshalJSON and
+	// are converted according to the cast recorded in the index
 	switch t {
-	case "float64":
-		f.Value = f.Value.(float64)
-	case "int64":
-		f.Value = int64(f.Value.(float64))
-	case "uint64":
-		f.Value = uint64(f.Value.(float64))
+	case "float64", "int64", "uint64":
+		n, ok := f.Value.(json.Number)
+		if !ok {
+			return fmt.Errorf("%w: cannot cast %T(%v) to %s", ErrBadIndexedField, f.Value, f.Value, t)
+		}
+		switch t {
+		case "float64":
+			f.Value, err = n.Float64()
+		case "int64":
+			f.Value, err = strconv.ParseInt(n.String(), 10, 64)
+		case "uint64":
+			f.Value, err = strconv.ParseUint(n.String(), 10, 64)
+		}
+		if err != nil {
+			return fmt.Errorf("%w: cannot cast %s to %s", ErrBadIndexedField, n, t)
+		}
 	case "string":
+		if _, ok := f.Value.(string); !ok {
+			return fmt.Errorf("%w: cannot cast %T(%v) to %s", ErrBadIndexedField, f.Value, f.Value, t)
+		}
 	default:
-		panic(fmt.Errorf("%w %s", ErrUnknownKeyType, t))
+		return fmt.Errorf("%w %s", ErrUnknownKeyType, t)
 	}
+	return nil
 }
 
 func (f *indexedField) valueTypeString() string {
